@@ -22,6 +22,7 @@ import (
 	"time"
 
 	"github.com/google/pprof/internal/plugin"
+	"github.com/google/pprof/internal/verifsim/simexec"
 	"github.com/google/pprof/internal/verifsim/simos"
 	"github.com/google/pprof/internal/verifsim/simrt"
 	"github.com/google/pprof/profile"
@@ -36,6 +37,7 @@ const (
 	skFile = iota
 	skURL
 	skFetcher
+	skPerf // a perf.data file converted by the external perf_to_profile tool
 )
 
 // source fault kinds
@@ -50,11 +52,12 @@ const (
 	sfFetcherErr
 	sfStall
 	sfReadErr
+	sfToolFails
 	nSF
 )
 
-var sfNames = [...]string{"good", "missing", "http404", "http500+pprof-body", "garbage", "torn", "invalid-profile", "fetcher-error", "stall->timeout", "disk-read-error"}
-var skNames = [...]string{"file", "url", "fetcher"}
+var sfNames = [...]string{"good", "missing", "http404", "http500+pprof-body", "garbage", "torn", "invalid-profile", "fetcher-error", "stall->timeout", "disk-read-error", "converter-fails"}
+var skNames = [...]string{"file", "url", "fetcher", "perf.data"}
 
 // modelSample is one sample of the generator's description of a source.
 type modelSample struct {
@@ -343,12 +346,14 @@ func c16FaultFor(t *simrt.Tape, kind int, pctFail int) int {
 		return []int{sfMissing, sfGarbage, sfTorn, sfReadErr}[t.Choose(K, 4)]
 	case skURL:
 		return []int{sfMissing, sfHTTP404, sfHTTP500Body, sfGarbage, sfTorn, sfStall, sfReadErr}[t.Choose(K, 7)]
+	case skPerf:
+		return []int{sfMissing, sfGarbage, sfToolFails}[t.Choose(K, 3)]
 	}
 	return []int{sfFetcherErr, sfInvalid}[t.Choose(K, 2)]
 }
 
 func (s *c16src) materialize() {
-	kindTag := []string{"f", "u", "x"}[s.kind]
+	kindTag := []string{"f", "u", "x", "p"}[s.kind]
 	b := ""
 	if s.base {
 		b = "b"
@@ -360,6 +365,8 @@ func (s *c16src) materialize() {
 		s.addr = fmt.Sprintf("http://%shost%d%s/debug/pprof/profile", b, s.idx, kindTag)
 	case skFetcher:
 		s.addr = fmt.Sprintf("fetch:%s%d", b, s.idx)
+	case skPerf:
+		s.addr = fmt.Sprintf("%sperf%d.data", b, s.idx)
 	}
 	if s.kind != skFetcher {
 		s.data = encodeProfile(c16Build(s))
@@ -383,7 +390,35 @@ type c16case struct {
 	saveENOSPC bool
 }
 
+// perfSrc maps the perf.data paths of the installed case to their sources
+// (read-only while a run is active).
+var perfSrc = map[string]*c16src{}
+
+// perfToProfile scripts the external converter: -i <perf.data> -o <out> -f.
+func perfToProfile(args []string, stdin []byte) ([]byte, []byte, int) {
+	var in, out string
+	for i := 0; i+1 < len(args); i++ {
+		switch args[i] {
+		case "-i":
+			in = args[i+1]
+		case "-o":
+			out = args[i+1]
+		}
+	}
+	if !strings.HasPrefix(in, "/") {
+		in = "/sim/cwd/" + in
+	}
+	s := perfSrc[in]
+	if s == nil || s.fault == sfToolFails {
+		return nil, []byte("perf_to_profile: cannot convert\n"), 1
+	}
+	simos.PutFile(out, s.data)
+	return nil, nil, 0
+}
+
 func (c *c16case) install() *c16net {
+	perfSrc = map[string]*c16src{}
+	simexec.Register("perf_to_profile", &simexec.Program{Batch: perfToProfile})
 	n := &c16net{byHost: map[string]*c16src{}, byFetch: map[string]*c16src{}}
 	var pfs []simos.PathFault
 	for _, s := range c.srcs {
@@ -399,6 +434,11 @@ func (c *c16case) install() *c16net {
 			default:
 				simos.PutFile("/sim/cwd/"+s.addr, s.data)
 			}
+		case skPerf:
+			if s.fault != sfMissing {
+				simos.PutFile("/sim/cwd/"+s.addr, []byte(fmt.Sprintf("PERFILE2 perf.data #%d", s.idx)))
+			}
+			perfSrc[fmt.Sprintf("/sim/cwd/%s", s.addr)] = s
 		case skURL:
 			host := strings.TrimPrefix(s.addr, "http://")
 			host = host[:strings.Index(host, "/")]
@@ -657,6 +697,9 @@ func runC16(x *xctx) *violation {
 	for i := 0; i < n+nb; i++ {
 		s := &c16src{idx: i, base: i >= n}
 		s.kind = t.Choose(K, 3)
+		if t.Bool(K, 12) {
+			s.kind = skPerf
+		}
 		if fileOnly {
 			s.kind = skFile
 		}
